@@ -36,6 +36,8 @@ structure Cfg where
   enqueueNonBlocking : Bool
   removeComparesIdentity : Bool
   errReportSelectsOnCtx : Bool
+  /-- the proxy follows `ProxyNext` only when it is non-empty (`len(ProxyNext) > 0`, not `!= nil`) -/
+  emptyNextIsNoRoute : Bool
   demuxCancelUsesDone : Bool
   demuxHandoffSelects : Bool
   httpCleanUsesDone : Bool
@@ -47,6 +49,6 @@ structure Cfg where
 
 /-- every flag as the property theorems need it (= the repaired tree) -/
 def Cfg.good : Cfg :=
-  { idAllocAtomic := true, registerChecksErr := true, unaryDeferUnregister := true, dispatchOutsideLock := true, closedPrefersCtx := true, okStatusIsSuccess := true, statsHeaderNilSafe := true, recvRechecksDoneOnCtx := true, resetIsError := true, badMetaSetsErr := true, trailerNoPanic := true, closeSendNoopWhenDone := true, finishOrder := true, sendTeardownNoRst := true, teardownCancelsFirst := true, openFailureTearsDown := true, unaryBadMetaIsErrorReply := true, unaryCtxFollowsConn := true, workerHandoffSelectsOnConn := true, forwardSelectsOnStreamDone := true, resetViaWriter := true, timeoutSaturates := true, timeoutDigitsOnly := true, badSourceIsIgnored := true, enqueueNonBlocking := true, removeComparesIdentity := true, errReportSelectsOnCtx := true, demuxCancelUsesDone := true, demuxHandoffSelects := true, httpCleanUsesDone := true, httpReadHonoursCtx := true, httpWriteHonoursCtx := true, chainShape := true, streamOnceGuards := true }
+  { idAllocAtomic := true, registerChecksErr := true, unaryDeferUnregister := true, dispatchOutsideLock := true, closedPrefersCtx := true, okStatusIsSuccess := true, statsHeaderNilSafe := true, recvRechecksDoneOnCtx := true, resetIsError := true, badMetaSetsErr := true, trailerNoPanic := true, closeSendNoopWhenDone := true, finishOrder := true, sendTeardownNoRst := true, teardownCancelsFirst := true, openFailureTearsDown := true, unaryBadMetaIsErrorReply := true, unaryCtxFollowsConn := true, workerHandoffSelectsOnConn := true, forwardSelectsOnStreamDone := true, resetViaWriter := true, timeoutSaturates := true, timeoutDigitsOnly := true, badSourceIsIgnored := true, enqueueNonBlocking := true, removeComparesIdentity := true, errReportSelectsOnCtx := true, emptyNextIsNoRoute := true, demuxCancelUsesDone := true, demuxHandoffSelects := true, httpCleanUsesDone := true, httpReadHonoursCtx := true, httpWriteHonoursCtx := true, chainShape := true, streamOnceGuards := true }
 
 end Goat
